@@ -8,7 +8,8 @@ ID = 'C13'
 MODEL_TARGETS = ['theories/C13/Run.vo']
 PROOF_TARGETS = ['theories/C13/Properties.vo']
 PROPERTIES_V = 'theories/C13/Properties.v'
-IMPORTS = 'Require Import FV.Gen.C13 FV.C13.Model FV.C13.Run.'
+IMPORTS = ('From Coq Require Import Uint63.\nRequire Import FV.Gen.C13 FV.C13.Model FV.C13.Run.\n'
+           'Open Scope uint63_scope.')
 CASE_TYPE = 'case'
 CHECK = 'check_case'
 SHARD_SIZE = 150
@@ -376,25 +377,15 @@ def enc_action(a):
     raise ValueError(a)
 
 
+EVK = {'turn': 0, 'wait': 1, 'main': 2, 'read': 3, 'mread': 4, 'winit': 5, 'iread': 6, 'started': 7}
+
+
 def enc_event(e):
-    k = e[0]
-    if k == 'turn':
-        return f'(LTurn {gal.z(e[1])})'
-    if k == 'wait':
-        return f'(LWait {gal.z(e[1])} {gal.z(e[2])})'
-    if k == 'main':
-        return f'(LMain {gal.z(e[1])} {gal.nat(e[2])})'
-    if k == 'read':
-        return f'(LRead {gal.z(e[1])} {gal.nat(e[2])} {gal.nat(e[3])})'
-    if k == 'mread':
-        return f'(LMRead {gal.z(e[1])} {gal.nat(e[2])} {gal.nat(e[3])})'
-    if k == 'winit':
-        return f'(LWinit {gal.z(e[1])} {gal.nat(e[2])})'
-    if k == 'iread':
-        return f'(LIread {gal.z(e[1])} {gal.nat(e[2])})'
-    if k == 'started':
-        return f'(LStarted {gal.z(e[1])})'
-    raise ValueError(e)
+    """RE kind time a b, primitive integers (uint63_scope is open in the shard files)"""
+    args = [int(x) for x in e[1:]] + [0, 0]
+    if min(args) < 0:
+        raise ValueError(f'negative number in log entry {e}')
+    return f'RE {EVK[e[0]]} {args[0]} {args[1]} {args[2]}'
 
 
 def enc_mod(md):
@@ -515,7 +506,7 @@ def oracle(case, obs):
         if tr is None or stopped:
             return
         for m in enabled:
-            if m in tr['overdue'] and m not in tr['mains']:
+            if m in tr['overdue'] and m not in tr['mains'] and m not in tr['changed']:
                 fail('main-poll-late', f'module {m}: doPoll due since {tr["overdue"][m]} (interval in force {tr["cur"][m]}) '
                      f'was not started in the loop turn beginning at {tr["tw"]}')
             if tr['mains'].count(m) > 1:
@@ -536,6 +527,8 @@ def oracle(case, obs):
                 cur[e[2]] = e[4] if e[3] else mpi[e[2]]
             if k in ('setint', 'fast'):
                 imax[e[2]] = max(imax[e[2]], cur[e[2]])
+                if turn is not None:
+                    turn['changed'].add(e[2])       # a change during a turn may take effect at once
             if k == 'trig' and e[3]:
                 if e[2] in t1:
                     t1[e[2]] = None
@@ -548,7 +541,7 @@ def oracle(case, obs):
         if e[0] == 'turn':
             close(turn)
             tw = e[1]
-            turn = {'tw': tw, 'cur': dict(cur), 'mains': [], 'reads': 0,
+            turn = {'tw': tw, 'cur': dict(cur), 'mains': [], 'reads': 0, 'changed': set(),
                     'overdue': {m: (t1[m] if t1[m] is None else t1[m] + cur[m]) for m in enabled
                                 if t1[m] is None or tw > t1[m] + cur[m]}}
             turns.append(turn)
